@@ -582,6 +582,47 @@ def r10_7(chk, tier):
                         else: chk.fail('R10.7', site, f['file'], dec_nodes[0].line, '%s::%s decrements %s twice on one path' % (short, e, ctr), None, f['q'])
     chk.require(n >= 30, 'R10.7: only %d open/close pairs with a depth counter found' % n)
 
+def r10_8(chk, tier):
+    """A parser or encoder that is reused starts counting depth from zero again."""
+    chk.rule('R10.8', 'reuse: in every parser/encoder class that counts nesting depth against max_nesting_depth and has reset(), each reset overload '
+                      '(by itself or through the overload it calls) sets that counter back to 0; otherwise the depth reached when an input was '
+                      'refused or broke off is carried into the next input, which is then refused below the limit', floor=4)
+    n = 0
+    for unit in ('core', 'cbor', 'msgpack', 'ubjson', 'bson', 'csv'):
+        facts = F.load([unit], tier)
+        if unit not in chk.units: chk.units.append(unit)
+        classes = {}
+        for f in facts.functions:
+            if f.get('body') is None or f.get('dep') or not f.get('cls'): continue
+            classes.setdefault(f['cls'], {}).setdefault(f['n'], []).append(f)
+        for cls, fns in sorted(classes.items()):
+            if 'reset' not in fns: continue
+            short = A.strip_targs(cls).split('::')[-1]
+            incd = set(); limited = set()
+            for fl in fns.values():
+                for f2 in fl:
+                    for x in A.walk_no_lambda(f2['body']):
+                        if x.get('k') == 'UnaryOperator' and x.get('op') == '++':
+                            s2 = A.strip(x.get('sub'), casts=True)
+                            if s2 is not None and s2.get('k') == 'MemberExpr' and ('depth' in s2.get('n', '') or 'level' in s2.get('n', '')): incd.add(s2['n'])
+                        if x.get('k') == 'BinaryOperator' and x.get('op') in ('<', '<=', '>', '>=') and 'max_nesting_depth' in A.text(x):
+                            for y in A.walk(x):
+                                if y.get('k') == 'MemberExpr': limited.add(y.get('n'))
+            for ctr in sorted(incd & limited):
+                for f in U.one_per_inst(fns['reset']):
+                    n += 1
+                    chk.analysed(f)
+                    site = U.site(f, 'reset of %s' % ctr)
+                    zeroed = False
+                    for b in I.closure_bodies(facts, f, depth=2):
+                        for x in A.walk_no_lambda(b):
+                            am = U.assigned_member(x) if x.get('k') in ('BinaryOperator', 'CXXOperatorCallExpr') else None
+                            if am and am[0] == ctr and A.const(am[1]) == 0: zeroed = True
+                    if zeroed: chk.ok('R10.8', site, {'class': short, 'counter': ctr})
+                    else: chk.fail('R10.8', site, f['file'], f['l'], '%s::reset does not set %s back to 0: a reader reused after an input that was refused for depth (or broke off inside '
+                                   'containers) counts the next input from the old depth' % (short, ctr), None, f['q'])
+    chk.require(n >= 4, 'R10.8: only %d reset functions of depth-counting classes found' % n)
+
 def run(chk, tier, only_rule=None):
     chk.explanation = EXPLANATION
     chk.not_decided = NOT_DECIDED
@@ -592,3 +633,4 @@ def run(chk, tier, only_rule=None):
     r10_5(chk, tier)
     r10_6(chk, tier)
     r10_7(chk, tier)
+    r10_8(chk, tier)
